@@ -11,6 +11,10 @@ import Mamba.Lemmas.DistanceGirthModel
 import Mamba.Lemmas.DistanceCanon
 import Mamba.Lemmas.DistanceGirthSound
 import Mamba.Lemmas.DistanceGirthComplete
+import Mamba.Lemmas.DistanceCCModel2
+import Mamba.Lemmas.DistanceIPaths4
+import Mamba.Lemmas.DistanceICycles5
+import Mamba.Lemmas.DistanceBiconTotal
 /-!
 # C10 — property theorems
 
@@ -194,6 +198,26 @@ theorem component_mem_components (g : G) (hsym : ∀ u v, g.adj u v = g.adj v u)
       (componentIn_congr hsym (mem_componentIn.1 hvc)).symm
     rw [this]; exact hc
 
+/-- The statement-by-statement model of `ConnectedComponent(g, v)` (the `unseen` slice with swap-remove, the
+`toCheck` stack, `sort.Ints` at the end) returns the reference component for every graph, every vertex `v < n` and
+every fuel `≥ n + 1`; in particular it does not panic (also for `n = 1`) and terminates. -/
+theorem connectedComponent_model_correct (g : G) (v : Nat) (hv : v < g.n) (fuel : Nat) (hf : g.n + 1 ≤ fuel) :
+    Model.connectedComponent g v fuel = .ok (component g v) :=
+  connectedComponent_eq g v hv fuel hf
+
+example : Model.connectedComponent (ofEdges 1 []) 0 = .ok (component (ofEdges 1 []) 0) :=  -- the repaired n = 1 case
+  connectedComponent_model_correct _ 0 (by decide) _ (by decide)
+
+/-- The model of `ConnectedComponents(g)` (shared `unseen` slice, one flood fill per remaining last element) returns
+exactly the reference components, each as its increasing list, in some order (the Go code starts from vertex
+`n-1`; the order of the result is not fixed by the property), for every graph with a symmetric adjacency relation and
+every fuel `≥ n + 1`. -/
+theorem connectedComponents_model_correct (g : G) (hsym : ∀ u v, g.adj u v = g.adj v u) (fuel : Nat)
+    (hf : g.n + 1 ≤ fuel) :
+    ∃ cs, Model.connectedComponents g fuel = .ok cs ∧ cs.Perm (components g) :=
+  connectedComponents_perm g hsym fuel hf
+
+
 /-! ## Articulation vertices -/
 
 /-- `BiconnectedComponents` (second result): `v` is reported iff deleting `v` increases the number of connected
@@ -235,6 +259,18 @@ theorem blocks_spec (g : G) (S : List Nat) :
   mem_blocks
 
 example : blocks (ofEdges 3 [(0, 1), (1, 2)]) = [[1, 2], [0, 1]] := by decide  -- test
+
+/-- `BiconnectedComponents` model (iterative lowpoint DFS as coded), totality part: for every graph with a
+symmetric adjacency relation the model returns a value — no index is out of range (in particular
+`bicoms[i][len(bicoms[i])-1]` in the merge loop is never taken of an empty slice: all partial blocks except the
+current one are non-empty), every `for len(toCheck) > 0` loop terminates within `2n + 2` iterations (each iteration
+pushes an unvisited vertex or pops one) — and every reported block is a sorted list.
+NOT proved (the full statement): that the reported blocks are exactly `blocks g` (`blocks_spec`) and the reported
+articulation vertices exactly `articulation g` (`articulation_spec`); this is validated per input (`F=ok`). -/
+theorem biconnectedComponents_model_total_partial (g : G) (hsym : ∀ u v, g.adj u v = g.adj v u) :
+    ∃ bs arts, Model.biconnectedComponents g = .ok (bs, arts) ∧
+      ∀ b ∈ bs, b.Pairwise (fun a b => decide (a ≤ b) = true) :=
+  biconnectedComponents_total g hsym
 
 /-! ## Girth and cycle / path counts -/
 
@@ -320,6 +356,45 @@ theorem numInducedPaths_spec (g : G) (l : Nat) :
   ⟨nodup_canonInducedPaths l, fun _ => mem_canonInducedPaths, rfl⟩
 
 example : numCyclesList (ofEdges 4 [(0, 1), (1, 2), (0, 2), (2, 3), (0, 3)]) = [0, 0, 0, 2, 1] := by decide  -- test
+
+/-- The statement-by-statement model of `NumberOfInducedPaths(g, maxLength)` — the `maxLength` normalisation, one
+DFS per connected component and start vertex with an explicit stack of partial paths and their `bannedNeighbours`
+sets (`sortints.SetMinus/Union/Add`), the final halving and `r[0] = n` — returns, for every graph with a symmetric
+adjacency relation, every `maxLength` (also negative or too large) and every fuel `≥ (n+2)^(n+2)`: entry `l` = the
+number of induced paths with `l` edges for `l ≤ max (effective bound) 1`, and `0` beyond. (Entry 1 is filled even
+for the bound 0, as in the Go code.) In particular the model does not panic and terminates. -/
+theorem numberOfInducedPaths_model_correct (g : G) (hsym : ∀ u v, g.adj u v = g.adj v u) (maxLength : Int)
+    (fuel : Nat) (hf : Model.stackFuel g.n ≤ fuel) :
+    Model.numberOfInducedPaths g maxLength fuel =
+      .ok ((List.range g.n).map fun l =>
+        if l ≤ max (pathBound g maxLength) 1 then numInducedPaths g l else 0) :=
+  numberOfInducedPaths_eq g hsym maxLength fuel hf
+
+/-- there are exactly twice as many directed induced path sequences as canonical ones (`l ≥ 1`): this is what
+makes the final `r[i] /= 2` exact -/
+theorem induced_paths_two_directions (g : G) (hsym : ∀ u v, g.adj u v = g.adj v u) (l : Nat) (hl : 1 ≤ l) :
+    (allInducedPaths g l).length = 2 * numInducedPaths g l :=
+  allInducedPaths_length hsym hl
+
+/-- The statement-by-statement model of `NumberOfInducedCycles(g, maxLength)` — the `maxLength` normalisation, the
+stack DFS with `allowedEnds` and `bannedNeighbours` per connected component and start vertex, the closing count
+`len(Intersection(Neighbours(last), allowedEnds))`, and the final `r[i] /= 2*i` — returns, for every graph with a
+symmetric loop-free adjacency relation, every `maxLength` and every fuel `≥ (n+2)^(n+2)`: entry `l` = the number of
+induced cycles with `l` vertices for `l ≤` effective bound, and `0` beyond. It does not panic and terminates. -/
+theorem numberOfInducedCycles_model_correct (g : G) (hsym : ∀ u v, g.adj u v = g.adj v u)
+    (hirr : ∀ v, g.adj v v = false) (maxLength : Int) (fuel : Nat) (hf : Model.stackFuel g.n ≤ fuel) :
+    Model.numberOfInducedCycles g maxLength fuel =
+      .ok ((List.range (g.n + 1)).map fun l =>
+        if l ≤ cycBound g maxLength then numInducedCycles g l else 0) :=
+  numberOfInducedCycles_eq g hsym hirr maxLength fuel hf
+
+/-- every induced cycle with `c ≥ 3` vertices has exactly `2c` rooted directed vertex sequences (orbit counting
+through `List.cyclicPermutations`): this is what makes the final `r[i] /= 2*i` exact -/
+theorem induced_cycles_orbits (g : G) (hsym : ∀ u v, g.adj u v = g.adj v u) (c : Nat) (hc : 3 ≤ c) :
+    (allIndCycleSeqs g c).Nodup ∧ (∀ q, q ∈ allIndCycleSeqs g c ↔ IsIndCycleSeq g c q) ∧
+    (allIndCycleSeqs g c).length = 2 * c * numInducedCycles g c :=
+  ⟨nodup_allIndCycleSeqs c, fun _ => mem_allIndCycleSeqs hsym hc,
+   indCycleSeq_count hsym c (nodup_allIndCycleSeqs c) (fun _ => mem_allIndCycleSeqs hsym hc)⟩
 
 /-! ## Invariance under relabelling
 
